@@ -1,5 +1,6 @@
 import RactorModel.Model.Remote
 import RactorModel.Model.Link
+import RactorModel.Model.Advert
 import Driver.Common
 
 /-! Driver for the `Remote` model (C20). Ops as written by `harness/hcluster/src/bin/c20.rs`.
@@ -69,6 +70,8 @@ structure CallInfo where
   timeoutSure : Bool := false
 
 structure E2E where
+  -- a node session is not being polled (`holdsess`): nothing is at rest
+  sessHeld : Bool := false
   /-- per probe: 0 up, 1 stop issued, 2 down, 3 spawn issued -/
   probes : List Nat := []
   /-- 0 up, 1 cut issued, 2 down, 4 may die any time (`cutafter`), 5 dies with the next batch
@@ -195,7 +198,9 @@ def stepE2E (e : E2E) (w : List String) (impl : String) : Option (E2E × StepOut
       | 3 => some (e, { model := "noproxy" })
       | 0 => some (e.setPx { p with net := p.net.step (.cast sender seq) }, { model := "ok", nontrivial := true })
       | 2 => some (e, { model := if impl == "noproxy" then impl else "err",
-                        oracle := if impl == "ok" then e.downClause 0 0 1 else [] })
+                        oracle := if impl == "ok" then
+                            (if e.link == 0 && e.settled then ["send-to-reference-of-stopped-original-accepted"] else e.downClause 0 0 1)
+                          else [] })
       | _ =>
         -- uncertain: the send may or may not be accepted, and may or may not arrive
         if impl == "ok" then some (e.setPx { p with net := p.net.step (.cast sender seq), exact := false }, { model := impl })
@@ -294,7 +299,11 @@ def stepE2E (e : E2E) (w : List String) (impl : String) : Option (E2E × StepOut
               else c' },
          { model := "ok" })
   | ["sched", _] => some (e, { model := "ok" })
+  | ["holdsess", _] => some ({ e with sessHeld := true, settled := false }, { model := impl })
+  | ["unholdsess", _] => some ({ e with sessHeld := false, settled := false }, { model := "ok", nontrivial := true })
   | ["settle"] =>
+    -- while a session is held back the rest of the system comes to rest, the whole does not
+    if e.sessHeld then some ({ e with settled := false }, { model := impl }) else
     if impl != "quiet" then some ({ e with settled := false }, { model := "quiet" }) else
     let probes := e.probes.map fun s => if s == 1 then 2 else if s == 3 then 0 else s
     let lk := Link.settle e.lk
@@ -469,7 +478,10 @@ def stepE2E (e : E2E) (w : List String) (impl : String) : Option (E2E × StepOut
       let calm := e.settled
       let model := if calm && st == 0 then "Running" else if calm && st == 2 && impl != "none" then "Stopped" else impl
       some (e, { model := model,
-                 oracle := if calm && st == 2 && impl != "none" && impl != "Stopped" then e.downClause 1 0 0 else [] })
+                 oracle := if calm && st == 2 && impl != "none" && impl != "Stopped" then
+                     -- the link is up, the original has stopped, everything is at rest: `Terminate` must have come
+                     (if e.link == 0 then ["reference-outlives-stopped-original"] else e.downClause 1 0 0)
+                   else [] })
     | _, _ => none
   | ["release"] => some ({ e with held := none, settled := false }, { model := "ok", nontrivial := e.held.isSome })
   | ["cutafter", _, _] =>
@@ -481,7 +493,58 @@ def stepE2E (e : E2E) (w : List String) (impl : String) : Option (E2E × StepOut
     some ({ e with pxs := pxs, link := if e.link == 2 then 2 else 1, settled := false }, { model := "ok" })
   | _ => none
 
+/-- the allow-list engine: the model state, messages delivered per actor, and the `Terminate`s the
+implementation has put on the wire so far -/
+structure ASt where
+  s : Advert.S := {}
+  recv : List Nat := []
+  implTerms : List Nat := []
+
+def showWire (w : List Advert.Wire) : String :=
+  if w.isEmpty then "-" else ",".intercalate (w.map fun | .spawn i => s!"S{i}" | .term i => s!"T{i}")
+
+def showNats (l : List Nat) : String := if l.isEmpty then "-" else ",".intercalate (l.map toString)
+
+def stepAdv (a : ASt) (w : List String) (impl : String) : Option (ASt × StepOut) :=
+  let op? : Option (Option Advert.Op) := match w with
+    | ["spawn"] => some (some .spawn)
+    | ["stop", i] => i.toNat?.map fun i => some (.stop i)
+    | ["evt", i] => i.toNat?.map fun i => some (.evt i)
+    | ["frame", i, _] => i.toNat?.map fun i => some (.frame i)
+    | ["rest"] => some none
+    | _ => none
+  op?.map fun op =>
+    let s' := match op with | some o => Advert.step a.s o | none => a.s
+    let recv := match op with
+      | some .spawn => a.recv ++ [0]
+      | some (.frame i) => if Advert.delivers a.s i then a.recv.modify i (· + 1) else a.recv
+      | _ => a.recv
+    let delta := s'.wire.drop a.s.wire.length
+    let model := s!"wire={showWire delta} adv={showNats ((s'.adv.toArray.qsort (· < ·)).toList)} recv={showNats recv}"
+    -- what the implementation announced (its own words)
+    let implWire : List String := match (splitOnChar impl ' ').head? with
+      | some f => if f.startsWith "wire=" then splitOnChar (f.drop 5).toString ',' else []
+      | none => []
+    let implTerms := a.implTerms ++ implWire.filterMap fun (t : String) =>
+      if t.startsWith "T" then (t.drop 1).toString.toNat? else none
+    -- the peer's reference to an original stops only when the peer is told (`Remote.Mirror`):
+    -- the session has handled the exit of `i` and said nothing
+    let wellFormed := impl.startsWith "wire="
+    let silent := wellFormed && match op with
+      | some (.evt i) => a.s.pend.contains i && !implTerms.contains i
+      | _ => false
+    -- at rest: every actor that is gone was announced exactly once, no live one was
+    let atRest := wellFormed && match op with
+      | none => s'.pend.isEmpty && (List.range s'.next).any fun i =>
+          implTerms.count i != (if s'.alive.contains i then 0 else 1)
+      | _ => false
+    ({ s := s', recv := recv, implTerms := implTerms },
+     { model := model, nontrivial := op.isSome,
+       oracle := (if silent then ["exit-of-advertised-original-not-announced"] else []) ++
+                 (if atRest then ["reference-outlives-stopped-original"] else []) })
+
 structure St where
+  a : ASt := {}
   p : PSt := {}
   e : E2E := {}
   inE2E : Bool := false
@@ -596,6 +659,11 @@ def step (st : St) (op impl : String) : St × StepOut :=
       ({ st with inE2E := true, e := e }, { model := model, nontrivial := true })
     | _, _, _ => (st, { model := "bad-op" })
   | ["proxy"] => ({ st with inE2E := false, p := {} }, { model := "ok" })
+  | ["adv", "new"] => ({ st with inE2E := false, a := {} }, { model := "ok" })
+  | "adv" :: rest =>
+    match stepAdv st.a rest impl with
+    | some (a, o) => ({ st with a := a }, o)
+    | none => (st, { model := "bad-op" })
   | _ =>
     if st.inE2E then
       match stepE2E st.e w impl with
